@@ -42,13 +42,13 @@ func genIssuer(rng *rand.Rand) pkix.Name {
 
 func genSerial(rng *rand.Rand) *big.Int {
 	n := 1 + rng.Intn(20)
+	if rng.Intn(6) == 0 {
+		n = 20 // 160 random bits, as CAs emit
+	}
 	b := randBytes(rng, n)
 	switch rng.Intn(5) {
 	case 0:
-		b[0] |= 0x80 // high bit: needs a leading zero octet (x509 allows up to 20 octets)
-		if n == 20 {
-			b[0] &= 0x7f
-		}
+		b[0] |= 0x80 // high bit: needs a leading zero octet (21 content octets for a 20-byte serial)
 	case 1:
 		b[0] = 0x00 // leading zero byte in the magnitude: must not appear in the encoding
 		if n > 1 {
